@@ -26,6 +26,14 @@ V = 'db::zone::validation::'
 LA = ['Found', 'Cname', 'Referral', 'NxDomain', 'WrongZone']
 
 
+def _stateful(fn, guard):
+    """The guard reads something that is mutated while the zone is scanned: a `&mut` parameter or a mutably borrowed
+    local (a cache, a counter, the issue list) -- as opposed to a function of the zone and the record at hand."""
+    if 'var:' in guard:
+        return True
+    return any(fn.local_ty(int(k)).startswith('&mut ') for k in re.findall(r'\barg(\d+)\b', guard) if int(k) <= fn.argc)
+
+
 def _dnf(g):
     """A guard list in which a computed boolean (`true-when{A | B & C} not in [0]`) is replaced by each of its arms:
     the site is reached under (other guards and A) or (other guards and B and C)."""
@@ -114,11 +122,12 @@ def check(R, F):
                 bad = [x for x in s[2] if 'class_has_addrs' in x or 'Name::len(arg2)' in x]
                 ok = not bad
                 msg = 'the NS-at-wildcard check is additionally guarded by %s: it would be skipped at the apex or for classes without address types' % bad
-            elif isinstance(extra, int):
-                # exact number of non-loop guards
-                core = [x for x in s[2] if not re.search(r'Iterator>::next|::next\(', x) and 'Try' not in x and 'branch(' not in x]
-                ok = len(core) == extra
-                msg = 'site is guarded by %s, expected exactly %d conditions' % (core, extra)
+            else:
+                # no condition beyond the prescribed ones (iteration and `?` edges aside): an issue that must be reported
+                # whenever the prescribed conditions hold is not made to depend on anything else (a cache, a counter, ...)
+                stray = [x for x in s[2] if not any(re.search(rx, x) for rx in rxs) and not re.match(r"^discr\([\w<>', :&]*::next\(", x) and _stateful(fn, x)]
+                ok = not stray
+                msg = 'site is additionally guarded by %s, a condition on state that is carried from one record to the next: the issue / check would be skipped although the prescribed conditions hold for this record' % stray
             R.require(ok, 'issue-table', key, fn.where(s[1]), '%s under the prescribed conditions' % what, msg)
         leftover = [s for k, s in enumerate(ss) if k not in used]
         R.require(not leftover, 'issue-table', V + name + '|no-other-sites', fn.where(), 'no other issue / helper sites', 'unexpected sites: %s' % [(s[0], s[2]) for s in leftover])
